@@ -40,7 +40,7 @@ SOFT_FILLS = ("nan", "neg", "zero", "huge")
 def generate(rng):
     prim = gen_primary(rng, "p0", kinds=STOCK_KINDS + ["TapePrimary"], dtypes=(None, None, "float32", "float64"))
     pkind = prim["kind"]
-    steps = rng.nsteps([2, 3, 4, 5, 6, 8, 11])
+    steps = rng.nsteps([1, 2, 3, 4, 5, 6, 8, 11])
     d = gen_derivative(rng, "d0", prim, kinds=OPTION_KINDS + ["EuropeanForwardStartOption", "VarianceSwap"], steps=steps)
     derivs = [d]
     hedge = None
